@@ -136,6 +136,8 @@ def run(ctx, b, broken):
         for h in real:
             if own[h]:
                 usable([h], own[h], "own-typedefs")
+            # "afterwards every type name the fake headers define is usable": each header ALONE makes the central list available
+            usable([h], tds, "central-typedefs-after-one-header")
         allnames = sorted({t for h in real for t in own[h]} | set(tds))
         usable(real, allnames, "all-headers")
         usable(list(reversed(real)), allnames, "all-headers-reversed")
